@@ -1,6 +1,7 @@
 """Property id -> check function."""
 import checks_stream
 import checks_noise
+import checks_keyring
 
 CHECKS = {
     "C01": checks_stream.c01,
@@ -12,6 +13,8 @@ CHECKS = {
     "C07": checks_noise.c07,
     "C08": checks_noise.c08,
     "C10": checks_stream.c10,
+    "C15": checks_keyring.c15,
+    "C17": checks_keyring.c17,
     "C11": checks_stream.c11,
 }
 
